@@ -99,4 +99,105 @@ Lemma tie_estimate_aligned_h3 src tgt : length src = length tgt ->
   src_estimate_aligned_h3 N (svd_of 3) src tgt = estimate_pairs N svd_of true 3 4 (combine src tgt).
 Proof using L. intros H. tie_estimate_aligned (@src_estimate_aligned_h3) src tgt H. Qed.
 
+(* ---------- the model's guarded functions, when they are defined ---------- *)
+Lemma estimate_corr_Some d ps src tgt corr H :
+  estimate_corr N svd_of true d ps src tgt corr = Some H -> H = estimate_pairs N svd_of true d ps (corr_pairs src tgt corr).
+Proof.
+  unfold estimate_corr. destruct (pairs_of_corr src tgt corr) as [prs|] eqn:E; [|discriminate].
+  intros [= <-]. now rewrite (pairs_of_corr_Some _ _ _ _ E).
+Qed.
+Lemma estimate_aligned_Some d ps src tgt H :
+  estimate_aligned N svd_of true d ps src tgt = Some H ->
+  length src = length tgt /\ H = estimate_pairs N svd_of true d ps (combine src tgt).
+Proof.
+  unfold estimate_aligned. destruct (Nat.eqb_spec (length src) (length tgt)) as [E|E]; [|discriminate].
+  intros [= <-]. now split.
+Qed.
+Lemma find_corr_pre_Some d ps ssrc stgt src tgt corr H :
+  find_corr_pre N svd_of true d ps ssrc stgt src tgt corr = Some H ->
+  H = unscale_translation N d (estimate_pairs N svd_of true d ps
+        (corr_pairs (precondition N ssrc src) (precondition N stgt tgt) corr)) (precond_matrix00 N stgt).
+Proof.
+  unfold find_corr_pre. destruct (estimate_corr _ _ _ _ _ _ _ _) as [H0|] eqn:E; [|discriminate].
+  intros [= <-]. now rewrite (estimate_corr_Some _ _ _ _ _ _ E).
+Qed.
+Lemma find_aligned_pre_Some d ps ssrc stgt src tgt H :
+  find_aligned_pre N svd_of true d ps ssrc stgt src tgt = Some H ->
+  length src = length tgt /\
+  H = unscale_translation N d (estimate_pairs N svd_of true d ps
+        (combine (precondition N ssrc src) (precondition N stgt tgt))) (precond_matrix00 N stgt).
+Proof.
+  unfold find_aligned_pre. destruct (estimate_aligned _ _ _ _ _ _ _) as [H0|] eqn:E; [|discriminate].
+  intros [= <-]. destruct (estimate_aligned_Some _ _ _ _ _ E) as [Hl ->]. split; [|reflexivity].
+  unfold precondition in Hl. now rewrite !map_length in Hl.
+Qed.
+
+(* ---------- find(PointSet, PointSet[, correspondences]): the estimate itself ---------- *)
+Ltac tie_find def lem := cbv delta [def]; cbv beta zeta; apply lem.
+Lemma tie_find_corr_v2 src tgt corr :
+  src_find_corr_v2 N (svd_of 2) src tgt corr = estimate_pairs N svd_of true 2 2 (corr_pairs src tgt corr).
+Proof using L. tie_find (@src_find_corr_v2) tie_estimate_corr_v2. Qed.
+Lemma tie_find_corr_v3 src tgt corr :
+  src_find_corr_v3 N (svd_of 3) src tgt corr = estimate_pairs N svd_of true 3 3 (corr_pairs src tgt corr).
+Proof using L. tie_find (@src_find_corr_v3) tie_estimate_corr_v3. Qed.
+Lemma tie_find_corr_h2 src tgt corr :
+  src_find_corr_h2 N (svd_of 2) src tgt corr = estimate_pairs N svd_of true 2 3 (corr_pairs src tgt corr).
+Proof using L. tie_find (@src_find_corr_h2) tie_estimate_corr_h2. Qed.
+Lemma tie_find_corr_h3 src tgt corr :
+  src_find_corr_h3 N (svd_of 3) src tgt corr = estimate_pairs N svd_of true 3 4 (corr_pairs src tgt corr).
+Proof using L. tie_find (@src_find_corr_h3) tie_estimate_corr_h3. Qed.
+Lemma tie_find_aligned_v2 src tgt : length src = length tgt ->
+  src_find_aligned_v2 N (svd_of 2) src tgt = estimate_pairs N svd_of true 2 2 (combine src tgt).
+Proof using L. tie_find (@src_find_aligned_v2) tie_estimate_aligned_v2. Qed.
+Lemma tie_find_aligned_v3 src tgt : length src = length tgt ->
+  src_find_aligned_v3 N (svd_of 3) src tgt = estimate_pairs N svd_of true 3 3 (combine src tgt).
+Proof using L. tie_find (@src_find_aligned_v3) tie_estimate_aligned_v3. Qed.
+Lemma tie_find_aligned_h2 src tgt : length src = length tgt ->
+  src_find_aligned_h2 N (svd_of 2) src tgt = estimate_pairs N svd_of true 2 3 (combine src tgt).
+Proof using L. tie_find (@src_find_aligned_h2) tie_estimate_aligned_h2. Qed.
+Lemma tie_find_aligned_h3 src tgt : length src = length tgt ->
+  src_find_aligned_h3 N (svd_of 3) src tgt = estimate_pairs N svd_of true 3 4 (combine src tgt).
+Proof using L. tie_find (@src_find_aligned_h3) tie_estimate_aligned_h3. Qed.
+
+(* ---------- find(PreconditionedPointSet, PreconditionedPointSet[, correspondences]) ----------
+   arguments of the generated functions: the data members points_, preconditioningMatrix_ of the two sets (the getters get(),
+   getPreconditioningMatrix() are translated from their bodies): the estimate on the stored points, then the first d entries
+   of the last column divided by entry (0,0) of the TARGET set's preconditioning matrix *)
+Ltac tie_find_pre def lem :=
+  cbv delta [def]; cbv beta zeta; rewrite lem;
+  match goal with |- context [estimate_pairs ?a ?b ?c ?d ?e ?f] => generalize (estimate_pairs a b c d e f) end;
+  intros; reflexivity.
+Lemma tie_find_pre_corr_v2 sp sm tp tm corr :
+  src_find_pre_corr_v2 N (svd_of 2) sp sm tp tm corr
+  = unscale_translation N 2 (estimate_pairs N svd_of true 2 2 (corr_pairs sp tp corr)) (mcomp N tm 0 0).
+Proof using L. tie_find_pre (@src_find_pre_corr_v2) tie_estimate_corr_v2. Qed.
+Lemma tie_find_pre_corr_v3 sp sm tp tm corr :
+  src_find_pre_corr_v3 N (svd_of 3) sp sm tp tm corr
+  = unscale_translation N 3 (estimate_pairs N svd_of true 3 3 (corr_pairs sp tp corr)) (mcomp N tm 0 0).
+Proof using L. tie_find_pre (@src_find_pre_corr_v3) tie_estimate_corr_v3. Qed.
+Lemma tie_find_pre_corr_h2 sp sm tp tm corr :
+  src_find_pre_corr_h2 N (svd_of 2) sp sm tp tm corr
+  = unscale_translation N 2 (estimate_pairs N svd_of true 2 3 (corr_pairs sp tp corr)) (mcomp N tm 0 0).
+Proof using L. tie_find_pre (@src_find_pre_corr_h2) tie_estimate_corr_h2. Qed.
+Lemma tie_find_pre_corr_h3 sp sm tp tm corr :
+  src_find_pre_corr_h3 N (svd_of 3) sp sm tp tm corr
+  = unscale_translation N 3 (estimate_pairs N svd_of true 3 4 (corr_pairs sp tp corr)) (mcomp N tm 0 0).
+Proof using L. tie_find_pre (@src_find_pre_corr_h3) tie_estimate_corr_h3. Qed.
+Lemma tie_find_pre_aligned_v2 sp sm tp tm : length sp = length tp ->
+  src_find_pre_aligned_v2 N (svd_of 2) sp sm tp tm
+  = unscale_translation N 2 (estimate_pairs N svd_of true 2 2 (combine sp tp)) (mcomp N tm 0 0).
+Proof using L. intros H. tie_find_pre (@src_find_pre_aligned_v2) (tie_estimate_aligned_v2 sp tp H). Qed.
+Lemma tie_find_pre_aligned_v3 sp sm tp tm : length sp = length tp ->
+  src_find_pre_aligned_v3 N (svd_of 3) sp sm tp tm
+  = unscale_translation N 3 (estimate_pairs N svd_of true 3 3 (combine sp tp)) (mcomp N tm 0 0).
+Proof using L. intros H. tie_find_pre (@src_find_pre_aligned_v3) (tie_estimate_aligned_v3 sp tp H). Qed.
+Lemma tie_find_pre_aligned_h2 sp sm tp tm : length sp = length tp ->
+  src_find_pre_aligned_h2 N (svd_of 2) sp sm tp tm
+  = unscale_translation N 2 (estimate_pairs N svd_of true 2 3 (combine sp tp)) (mcomp N tm 0 0).
+Proof using L. intros H. tie_find_pre (@src_find_pre_aligned_h2) (tie_estimate_aligned_h2 sp tp H). Qed.
+Lemma tie_find_pre_aligned_h3 sp sm tp tm : length sp = length tp ->
+  src_find_pre_aligned_h3 N (svd_of 3) sp sm tp tm
+  = unscale_translation N 3 (estimate_pairs N svd_of true 3 4 (combine sp tp)) (mcomp N tm 0 0).
+Proof using L. intros H. tie_find_pre (@src_find_pre_aligned_h3) (tie_estimate_aligned_h3 sp tp H). Qed.
+
 End Generic.
